@@ -12,9 +12,9 @@
   raw text of containers, needed for json.RawMessage) with its parser, and `bindVal`.
 
   Known limits of the model (cases answered `outside`):
-    * the exact decimal→binary conversion is not modelled here: number → float32/float64/interface{} goes
-      through the oracle table `DecOpts.flt` (filled by the driver from strconv.ParseFloat; to be replaced by
-      `Num.toF64Bits` of the `num` work package); a literal missing from the table is `outside`;
+    * number → float32/float64/interface{} uses the exact conversion of core C (`Num.toF64Bits` /
+      `Num.toF32Bits` = strconv.ParseFloat on JSON literals); the content of a `,string` float field that
+      strconv accepts but that is not a JSON literal ("1.", "0x1p-2", "-Inf") is `outside`;
     * `(lib ..)` types; field names / keys with non-ASCII runes outside the small fold table below;
     * slices are values without hidden capacity (encoding/json re-exposes elements of a slice that an
       earlier duplicate key truncated; needs three occurrences of one key; the driver reports `outside`).
@@ -22,6 +22,7 @@
 import SonicSpec.Model.Hex
 import SonicSpec.Model.JsonTree
 import SonicSpec.Model.GoTypes
+import SonicSpec.Model.Num
 namespace SonicSpec.Bind
 open SonicSpec SonicSpec.Go SonicSpec.Json
 
@@ -42,10 +43,6 @@ structure DecOpts where
   disallowUnknown : Bool := false
   caseSensitive : Bool := false
   validateString : Bool := false
-  /-- float oracle: what strconv.ParseFloat makes of a literal at 64 / 32 bits (`none` = out of range or
-      not a float syntax); a literal missing from the table is answered `outside`.  The exact conversion
-      is the subject of C19 (`Num.toF64Bits`); the driver fills the table from strconv. -/
-  flt : List (Bytes × Option UInt64 × Option UInt32) := []
 deriving Repr, Inhabited
 
 /-- `d.saveError`: the first error is kept (decode.go:260); `outside` is sticky so that the driver never
@@ -289,7 +286,7 @@ def runeOf : Bytes → Nat
   | _ => 65533
 
 /-- foldRune on the part of Unicode the model covers: ASCII, Latin-1 and the runes whose fold orbit
-    meets them (ſ K Å Ÿ Μ μ ẞ); `none` = outside the table -/
+    meets them (ſ K Å Ÿ Μ μ ẞ), the basic Greek and Cyrillic alphabets; `none` = outside the table -/
 def foldRune (r : Nat) : Option Nat :=
   if r < 128 then some (if r ≥ 97 && r ≤ 122 then r - 32 else r)
   else if r == 181 then some 181
@@ -301,6 +298,16 @@ def foldRune (r : Nat) : Option Nat :=
   else if r == 8491 then some 197
   else if r == 924 || r == 956 then some 181
   else if r == 7838 then some 223
+  -- Greek: capitals U+0391..03A9 are the smallest of their orbits, except Ι (orbit starts at U+0345) and Μ (µ)
+  else if r == 921 || r == 953 then some 837
+  else if r == 962 then some 931                              -- final sigma ς ~ Σ
+  else if r ≥ 913 && r ≤ 937 && r != 930 then some r
+  else if r ≥ 945 && r ≤ 969 then some (r - 32)
+  -- Cyrillic: U+0410..042F / 0430..044F and U+0400..040F / 0450..045F
+  else if r ≥ 1040 && r ≤ 1071 then some r
+  else if r ≥ 1072 && r ≤ 1103 then some (r - 32)
+  else if r ≥ 1024 && r ≤ 1039 then some r
+  else if r ≥ 1104 && r ≤ 1119 then some (r - 80)
   else none
 
 def foldName : Nat → Bytes → Option Bytes
@@ -472,9 +479,18 @@ def bindNull (T : GoType) (cur : GoVal) : GoVal :=
   | .raw => .raw [110, 117, 108, 108]
   | _ => cur
 
-/-! ### hook for the exact decimal → binary conversion (work package `num`): an oracle table -/
-def floatHook64 (o : DecOpts) (lit : Bytes) : Option (Option UInt64) := (o.flt.lookup lit).map (·.1)
-def floatHook32 (o : DecOpts) (lit : Bytes) : Option (Option UInt32) := (o.flt.lookup lit).map (·.2)
+/-! ### exact decimal → binary conversion (core C, `Model/Num.lean`): `some (some bits)`, `some none` = out
+    of range (strconv's ErrRange: a type error in encoding/json), `none` = not a JSON number literal -/
+def floatHook64 (_o : DecOpts) (lit : Bytes) : Option (Option UInt64) :=
+  match Num.toF64Bits lit with
+  | .ok b => some (some b)
+  | .error .range => some none
+  | .error _ => none
+def floatHook32 (_o : DecOpts) (lit : Bytes) : Option (Option UInt32) :=
+  match Num.toF32Bits lit with
+  | .ok b => some (some b)
+  | .error .range => some none
+  | .error _ => none
 
 /-- number literal → float64 destination (decode.go:1006-1012) -/
 def bindF64 (o : DecOpts) (lit : Bytes) (cur : GoVal) : R :=
